@@ -64,7 +64,7 @@ def _case_line(c: dict) -> str | None:
     r = c["r"]
     if "out" not in r:
         return None
-    return json.dumps({"id": c["id"], "inp": items(c["text"]), "out": items(r["out"]),
+    return json.dumps({"id": c["id"], "t0": c["text"], "inp": items(c["text"]), "out": items(r["out"]),
                        "o1": r["out"], "o2": r.get("out2", "<<second pass raised>>"),
                        "out_err": has_error_mod_tc(r["out"])}, ensure_ascii=False)
 
